@@ -25,6 +25,22 @@ semantics  : Python int = Coq Z.  // is Z.div and % is Z.modulo (both floor, sig
              << >> are Z.shiftl/Z.shiftr (for a negative count Python raises; the models only use
              them with non-negative counts, which the correspondence run exercises).
              A Python int used as a condition is `x <> 0`.
+contract   : the Coq definition yields the value Python returns WHENEVER PYTHON RETURNS.  Where Python
+             raises (// or % by zero, a negative shift count, KeyError / IndexError of a table,
+             ValueError of an enum cast, a failing `assert x.step is None`) the Coq function is total
+             and yields some value; the hand-written models decide those cases.  Only the literal
+             cases (`x // 0`, `x << -1`) can be, and are, rejected.
+name rules : (whole-function mode, i.e. translate_unit) a local variable may be read only where it
+             is assigned on every path; a name that is neither a local nor declared in
+             spec["globals"] = {name: dict(coq=..., type=...)} is rejected; two Python names may not
+             become one Coq identifier (`end`/`end_`, the components `x_0`, `e_key` of a tuple /
+             key-mask variable against a variable of that name); a local may not be called `true`,
+             `false`, `fst`, ... or like a Coq definition the unit refers to; min/max/abs/bool/int/
+             sum/range/slice must not be rebound by the function or its module; a bare-name call
+             denotes a translated function only if that is a module-level function of the same file
+             (or imported from its file by that name); a function must be bound once in its scope
+             and carry no decorator other than staticmethod / classmethod / property.
+             tools/PY2V_AUDIT.md is the full account; tools/py2v_selftest.py tests it differentially.
 """
 import ast
 import sys
@@ -41,9 +57,56 @@ class Unsupported(Exception):
 
 USES = {"list": False}
 
+# identifiers the translator itself emits (or that a generated file relies on): a Python variable of
+# one of these names would capture them (`true = False; return True`), so it is rejected
+EMITTED = {"true", "false", "negb", "andb", "orb", "fst", "snd", "map", "seq", "fold_right",
+           "Z", "bool", "nat", "list", "prod", "pair"}
+# names the translator gives a built-in meaning to when they are called
+BUILTINS = {"min", "max", "abs", "bool", "int", "sum", "range", "slice"}
+
 
 def ident(n):
     return n + "_" if n in RESERVED else n
+
+
+class _Tail(str):
+    """The expression a block yields when control falls off its end, with the Python variables it reads."""
+    names = ()
+
+
+def bound_names(stmts):
+    """Every name the statements can bind, at any depth (assignment, for / with / except / walrus /
+    comprehension targets, import, def, class, global, match captures, del)."""
+    out = set()
+    for top in stmts:
+        for n in ast.walk(top):
+            if isinstance(n, ast.Name) and isinstance(n.ctx, (ast.Store, ast.Del)):
+                out.add(n.id)
+            elif isinstance(n, (ast.FunctionDef, ast.AsyncFunctionDef, ast.ClassDef)):
+                out.add(n.name)
+            elif isinstance(n, (ast.Import, ast.ImportFrom)):
+                out.update((a.asname or a.name.split(".")[0]) for a in n.names)
+            elif isinstance(n, (ast.Global, ast.Nonlocal)):
+                out.update(n.names)
+            elif isinstance(n, ast.ExceptHandler) and n.name:
+                out.add(n.name)
+            elif type(n).__name__ in ("MatchAs", "MatchStar") and n.name:
+                out.add(n.name)
+            elif type(n).__name__ == "MatchMapping" and n.rest:
+                out.add(n.rest)
+    return out
+
+
+def module_names(tree):
+    """Names bound at module level ('*' stands for a star import).  Over-approximated for compound
+    statements (everything bound anywhere inside them), which can only cause a rejection."""
+    out = set()
+    for n in tree.body:
+        if isinstance(n, (ast.FunctionDef, ast.AsyncFunctionDef, ast.ClassDef)):
+            out.add(n.name)
+        else:
+            out |= bound_names([n])
+    return out
 
 
 class Fn:
@@ -54,16 +117,93 @@ class Fn:
     types: 'Z', 'bool', 'slice' (pair), 'Z2', 'Z3', ... tuples of Z.
     """
 
-    def __init__(self, node, spec, calls):
+    def __init__(self, node, spec, calls, module=None, origin=None):
         self.node = node
         self.spec = spec
         self.calls = calls
         self.types = {}
+        # whole-function mode (translate / translate_fragment): name hygiene is checked.  The
+        # expression mode used by the dumpers (expr / as_bool / block called directly with
+        # self.types preset) leaves these None: every free name is then a Z variable of the caller.
+        self.bound = None          # names definitely assigned on the current path
+        self.locals = None         # names that are local variables of the Python function
+        self.coqnames = None       # Coq identifier -> the Python name it stands for
+        self.module = module       # ast of the file (None: module-level shadowing is not checked)
+        self.module_names = module_names(module) if module is not None else set()
+        self.origin = origin       # callee name -> (file, qualified name) (None: not checked)
 
     def err(self, node, what):
         raise Unsupported("%s:%s: unsupported %s: %s" % (
             self.spec["name"], getattr(node, "lineno", "?"), what,
             ast.dump(node)[:160] if isinstance(node, ast.AST) else node))
+
+    # ---------------------------------------------------------------- name hygiene
+    def enter(self, stmts):
+        """Whole-function mode: collect the local names of `stmts` and refuse every clash between
+        the Coq identifiers the translation will bind."""
+        params = self.spec["params"]
+        self.locals = set(params) | bound_names(stmts)
+        self.bound = set(params)
+        names = set(self.locals)
+        for s in stmts:
+            names.update(n.id for n in ast.walk(s) if isinstance(n, ast.Name))
+        self.coqnames = {}
+        for n in sorted(names):
+            c = ident(n)
+            if c in self.coqnames:
+                raise Unsupported("%s: the names %s and %s both become the Coq identifier %s"
+                                  % (self.spec["name"], self.coqnames[c], n, c))
+            self.coqnames[c] = n
+        taken = set(EMITTED) | {self.spec["coq"]} | {c[0] for c in self.calls.values()}
+        for k in ("tables", "lookups", "globals"):
+            taken |= {d["coq"] for d in self.spec.get(k, {}).values()}
+        for n in sorted(self.locals):
+            if ident(n) in taken:
+                raise Unsupported("%s: the local name %s would capture the Coq identifier %s"
+                                  % (self.spec["name"], n, ident(n)))
+
+    def components(self, n, suffixes):
+        """Coq identifiers of the components of the tuple / key-mask variable n."""
+        out = ["%s_%s" % (ident(n), s) for s in suffixes]
+        if self.coqnames is not None:
+            for c in out:
+                if c in self.coqnames:
+                    raise Unsupported("%s: component %s of %s clashes with the name %s"
+                                      % (self.spec["name"], c, n, self.coqnames[c]))
+        return out
+
+    def shadowed(self, f):
+        """Is the global / built-in name f rebound by the function or by its module?"""
+        if self.locals is not None and f in self.locals:
+            return True
+        if self.module is not None and f in BUILTINS \
+                and (f in self.module_names or "*" in self.module_names):
+            return True
+        return False
+
+    def callee_visible(self, f):
+        """Does the bare name f, called in this function, denote the translated function calls[f]?"""
+        if self.origin is None:
+            return True
+        file, qual = self.origin[f]
+        if "." in qual:
+            return False                      # a method is never reached through a bare name
+        if file == self.spec.get("file"):
+            return True
+        if self.module is None:
+            return False
+        here = self.spec.get("file", "").split("/")[:-1]
+        for n in self.module.body:
+            if isinstance(n, ast.ImportFrom):
+                for a in n.names:
+                    if (a.asname or a.name) == f and a.name == qual:
+                        if n.level > len(here) + 1:
+                            continue
+                        base = here[:len(here) - (n.level - 1)] if n.level else []
+                        path = "/".join(base + (n.module.split(".") if n.module else [])) + ".py"
+                        if path == file:
+                            return True
+        return False
 
     # ---------------------------------------------------------------- expressions
     def expr(self, e):
@@ -75,6 +215,13 @@ class Fn:
                 return ("(%d)" % e.value, "Z")
             self.err(e, "constant")
         if isinstance(e, ast.Name):
+            if self.bound is not None and e.id not in self.bound:
+                g = self.spec.get("globals", {})
+                if e.id in self.locals:
+                    self.err(e, "use of the local variable %s where it may be unassigned" % e.id)
+                if e.id not in g:
+                    self.err(e, "global name %s (not declared in spec['globals'])" % e.id)
+                return (g[e.id]["coq"], g[e.id]["type"])
             return (ident(e.id), self.types.get(e.id, "Z"))
         if isinstance(e, ast.Tuple):
             parts = [self.expr(x) for x in e.elts]
@@ -85,6 +232,13 @@ class Fn:
         if isinstance(e, ast.BinOp):
             a = self.as_Z(e.left)
             b = self.as_Z(e.right)
+            r = e.right
+            if isinstance(e.op, (ast.FloorDiv, ast.Mod)) and isinstance(r, ast.Constant) and r.value == 0:
+                self.err(e, "division by the literal 0 (Python raises)")
+            if isinstance(e.op, (ast.LShift, ast.RShift)) and isinstance(r, ast.UnaryOp) \
+                    and isinstance(r.op, ast.USub) and isinstance(r.operand, ast.Constant) \
+                    and r.operand.value != 0:
+                self.err(e, "shift by a negative literal (Python raises)")
             ops = {ast.Add: "Z.add", ast.Sub: "Z.sub", ast.Mult: "Z.mul", ast.FloorDiv: "Z.div",
                    ast.Mod: "Z.modulo", ast.BitAnd: "Z.land", ast.BitOr: "Z.lor",
                    ast.BitXor: "Z.lxor", ast.LShift: "Z.shiftl", ast.RShift: "Z.shiftr"}
@@ -139,13 +293,15 @@ class Fn:
                     and isinstance(e.slice.value, int):
                 t = self.types.get(e.value.id, "Z")
                 if t.startswith("Z") and t[1:].isdigit() and 0 <= e.slice.value < int(t[1:]):
+                    self.expr(e.value)          # (whole-function mode: the variable must be assigned)
                     return ("%s_%d" % (ident(e.value.id), e.slice.value), "Z")
             # TABLE[i][j] where TABLE is a module-level 2-D constant table declared in the spec
             # (spec["tables"] = {python name: dict(coq=lookup function, elem=element type)}); the table
             # itself and its lookup function come from a dumped unit named in unit["requires"].
             tables = self.spec.get("tables", {})
             if isinstance(e.value, ast.Subscript) and isinstance(e.value.value, ast.Name) \
-                    and e.value.value.id in tables and e.value.value.id not in self.types:
+                    and e.value.value.id in tables and e.value.value.id not in self.types \
+                    and not self.shadowed(e.value.value.id):
                 tb = tables[e.value.value.id]
                 return ("(%s %s %s)" % (tb["coq"], self.as_Z(e.value.slice), self.as_Z(e.slice)),
                         tb["elem"])
@@ -154,7 +310,8 @@ class Fn:
             # the lookup function comes from a dumped unit named in unit["requires"]; a missing key
             # (Python KeyError) is the lookup function's business (e.g. an option result type).
             lookups = self.spec.get("lookups", {})
-            if isinstance(e.value, ast.Name) and e.value.id in lookups and e.value.id not in self.types:
+            if isinstance(e.value, ast.Name) and e.value.id in lookups and e.value.id not in self.types \
+                    and not self.shadowed(e.value.id):
                 lk = lookups[e.value.id]
                 kv, kt = self.expr(e.slice)
                 if kt != lk["key"]:
@@ -172,6 +329,8 @@ class Fn:
             self.err(e, "attribute")
         if isinstance(e, ast.Call) and isinstance(e.func, ast.Name) and not e.keywords:
             f = e.func.id
+            if self.shadowed(f):
+                self.err(e, "call of %s, which the function or its module rebinds" % f)
             if f in ("min", "max") and len(e.args) >= 2:
                 parts = [self.as_Z(a) for a in e.args]
                 t = parts[0]
@@ -198,12 +357,17 @@ class Fn:
                 if not ok:
                     self.err(e, "sum(...) outside the accepted pattern")
                 var = c.target.id
-                if var in self.types or var in self.spec["params"]:
+                if var in self.types or var in self.spec.get("params", {}) \
+                        or (self.bound is not None and var in self.bound) or self.shadowed("range"):
                     self.err(e, "sum variable shadows another name")
                 self.types[var] = "Z"
+                if self.bound is not None:
+                    self.bound.add(var)
                 elt = self.as_Z(g.elt)
                 cond = self.as_bool(c.ifs[0]) if c.ifs else "true"
                 del self.types[var]
+                if self.bound is not None:
+                    self.bound.discard(var)
                 USES["list"] = True
                 return ("(fold_right Z.add 0 (map (fun %s : Z => if %s then %s else 0) "
                         "(map Z.of_nat (seq 0 %d))))" % (ident(var), cond, elt, it.args[0].value), "Z")
@@ -217,6 +381,8 @@ class Fn:
                     and f not in self.calls:
                 return (self.as_Z(e.args[0]), "Z")
             if f in self.calls:
+                if not self.callee_visible(f):
+                    self.err(e, "call of %s: the bare name does not denote the translated function" % f)
                 cname, ptypes, rtype = self.calls[f]
                 if len(ptypes) != len(e.args):
                     self.err(e, "call arity")
@@ -292,6 +458,11 @@ class Fn:
             if tail is None:
                 raise Unsupported("%s: control can fall off the end of the function"
                                   % self.spec["name"])
+            if self.bound is not None:
+                for n in getattr(tail, "names", ()):
+                    if n not in self.bound:
+                        raise Unsupported("%s: %s is assigned in only one branch of an `if` and not "
+                                          "before it" % (self.spec["name"], n))
             return tail
         s, rest = stmts[0], stmts[1:]
         if isinstance(s, ast.Expr) and isinstance(s.value, ast.Constant) \
@@ -322,9 +493,11 @@ class Fn:
             v, t = self.expr(s.value)
             if isinstance(tg, ast.Name):
                 self.types[tg.id] = t
+                if self.bound is not None and tg.id != "_":
+                    self.bound.add(tg.id)
                 if t.startswith("Z") and t[1:].isdigit():
                     n = int(t[1:])
-                    comps = ", ".join("%s_%d" % (ident(tg.id), i) for i in range(n))
+                    comps = ", ".join(self.components(tg.id, range(n)))
                     return "let %s := %s in let '(%s) := %s in\n  %s" % (
                         ident(tg.id), v, comps, ident(tg.id), self.block(rest, tail))
                 return "let %s := %s in\n  %s" % (ident(tg.id), v, self.block(rest, tail))
@@ -335,8 +508,12 @@ class Fn:
                 for x in tg.elts:
                     if not isinstance(x, ast.Name):
                         self.err(s, "assignment target")
+                    if ident(x.id) in names and x.id != "_":
+                        self.err(s, "name assigned twice by one tuple assignment")
                     self.types[x.id] = "Z"
                     names.append(ident(x.id))
+                if self.bound is not None:
+                    self.bound.update(x.id for x in tg.elts if x.id != "_")   # `_` is a wildcard in Coq
                 # Python evaluates the right-hand side completely before binding: a let-pattern
                 # on a tuple has the same meaning.
                 return "let '(%s) := %s in\n  %s" % (", ".join(names), v, self.block(rest, tail))
@@ -352,8 +529,10 @@ class Fn:
             c = self.as_bool(s.test)
             if self.has_return(s.body) or self.has_return(s.orelse):
                 saved = dict(self.types)
+                bound = set(self.bound) if self.bound is not None else None
                 a = self.block(list(s.body) + rest, tail)
                 self.types = dict(saved)
+                self.bound = bound
                 b = self.block(list(s.orelse) + rest, tail)
                 return "(if %s then\n  %s\n  else\n  %s)" % (c, a, b)
             vs = self.assigned(s.body) + [n for n in self.assigned(s.orelse)
@@ -363,14 +542,19 @@ class Fn:
             for n in vs:
                 if self.types.get(n, "Z") != "Z":
                     self.err(s, "if assigning a non-integer variable")
-            tup = "(" + ", ".join(ident(n) for n in vs) + ")" if len(vs) > 1 else ident(vs[0])
+            tup = _Tail("(" + ", ".join(ident(n) for n in vs) + ")" if len(vs) > 1 else ident(vs[0]))
+            tup.names = tuple(vs)
             saved = dict(self.types)
+            bound = set(self.bound) if self.bound is not None else None
             a = self.block(list(s.body), tup)
             self.types = dict(saved)
+            self.bound = set(bound) if bound is not None else None
             b = self.block(list(s.orelse), tup)
             self.types = dict(saved)
             for n in vs:
                 self.types[n] = "Z"
+            if bound is not None:
+                self.bound = bound | set(vs)      # (both branches were checked to assign or keep them)
             pat = "'" + tup if len(vs) > 1 else tup
             return "let %s := (if %s then\n  %s\n  else\n  %s) in\n  %s" % (
                 pat, c, a, b, self.block(rest, tail))
@@ -409,10 +593,24 @@ class Fn:
                 if not all(n in targets for n in ns):
                     self.err(s, "fragment: statement assigns listed and unlisted names")
                 sel.append(s)
-            elif isinstance(s, (ast.If, ast.For, ast.While, ast.With, ast.Try)):
-                for sub in ast.walk(s):
-                    if any(n in targets for n in names_of(sub)):
-                        self.err(s, "fragment: a listed name is assigned under nested control flow")
+            elif bound_names([s]) & targets:
+                # annotated / walrus / for / with / import ... bindings, or nested control flow
+                self.err(s, "fragment: a listed name is bound by a statement that is not selected")
+        # The fragment is read as straight-line code from its first to its last statement, the
+        # parameters having the values they have at the first one: nothing in between may rebind a
+        # name the fragment reads, nor leave the region.
+        if sel:
+            reads = set(self.spec["params"])
+            for s in sel:
+                reads.update(n.id for n in ast.walk(s) if isinstance(n, ast.Name))
+            for s in region[region.index(sel[0]):region.index(sel[-1])]:
+                if s in sel:
+                    continue
+                if not isinstance(s, (ast.Assign, ast.AugAssign, ast.AnnAssign, ast.Expr, ast.Pass)):
+                    self.err(s, "fragment: control flow between the selected statements")
+                if bound_names([s]) & reads:
+                    self.err(s, "fragment: a name the fragment reads is rebound between the "
+                                "selected statements")
         if "count" in frag and len(sel) != frag["count"]:
             self.err(self.node, "fragment: %d statements assign %r, expected %d"
                      % (len(sel), sorted(targets), frag["count"]))
@@ -428,13 +626,14 @@ class Fn:
 
     def translate_fragment(self, frag):
         stmts = self.fragment(frag)
+        self.enter(stmts)
         binders = []
         for n, t in self.spec["params"].items():
             self.types[n] = t
             if t == "Z":
                 binders.append("(%s : Z)" % ident(n))
             elif t == "km":
-                binders.append("(%s_key : Z) (%s_mask : Z)" % (ident(n), ident(n)))
+                binders.append("(%s : Z) (%s : Z)" % tuple(self.components(n, ("key", "mask"))))
             else:
                 raise Unsupported("bad fragment parameter type " + t)
         body = self.block(stmts, None)
@@ -446,8 +645,14 @@ class Fn:
         a = self.node.args
         if a.vararg or a.kwarg or a.kwonlyargs or a.posonlyargs:
             self.err(self.node, "parameter list")
+        for d in self.node.decorator_list:
+            # decorators that leave the function of its arguments unchanged; any other could wrap it
+            if not (isinstance(d, ast.Name) and d.id in ("staticmethod", "classmethod", "property")):
+                self.err(d, "decorator")
         names = [x.arg for x in a.args]
-        if a.defaults:
+        if len(set(names)) != len(names):
+            self.err(self.node, "parameter list")
+        if a.defaults or self.spec.get("defaults"):
             # default values are accepted only when the spec states them (spec["defaults"] =
             # {parameter: integer}); the Coq definition takes every parameter explicitly and the
             # model / harness supplies the stated default where the caller omits the argument.
@@ -471,6 +676,7 @@ class Fn:
         if names != want:
             raise Unsupported("%s: parameters are %r, the model expects %r"
                               % (self.spec["name"], names, want))
+        self.enter(list(self.node.body))
         binders, pre = [], []
         for n in names:
             t = self.spec["params"][n]
@@ -484,8 +690,7 @@ class Fn:
             elif t.startswith("Z") and t[1:].isdigit():
                 k = int(t[1:])
                 binders.append("(%s : %s)" % (ident(n), " * ".join(["Z"] * k)))
-                pre.append("let '(%s) := %s in" % (
-                    ", ".join("%s_%d" % (ident(n), i) for i in range(k)), ident(n)))
+                pre.append("let '(%s) := %s in" % (", ".join(self.components(n, range(k))), ident(n)))
             else:
                 raise Unsupported("bad parameter type " + t)
         body = self.block(list(self.node.body), None)
@@ -505,6 +710,19 @@ def find_function(tree, qualname):
                 break
         if node is None:
             raise Unsupported("function %s not found" % qualname)
+        # Python keeps the LAST binding of a name: refuse any later rebinding of the one found (except
+        # the setter / deleter of a property, which keep the getter found first)
+        for n in body[body.index(node) + 1:]:
+            if isinstance(n, ast.FunctionDef) and n.name == p and n.decorator_list and all(
+                    isinstance(d, ast.Attribute) and isinstance(d.value, ast.Name) and d.value.id == p
+                    and d.attr in ("setter", "deleter") for d in n.decorator_list):
+                continue
+            if isinstance(n, (ast.FunctionDef, ast.AsyncFunctionDef, ast.ClassDef)):
+                again = n.name == p
+            else:
+                again = p in bound_names([n])
+            if again:
+                raise Unsupported("%s is bound again at line %d" % (qualname, n.lineno))
         body = node.body
     if not isinstance(node, ast.FunctionDef):
         raise Unsupported("%s is not a function" % qualname)
@@ -518,18 +736,20 @@ def translate_unit(repo, unit):
            "From Coq Require Import ZArith Bool."]
     out += ["Require Import %s." % r for r in unit.get("requires", [])]
     out += ["Open Scope Z_scope.", ""]
-    calls = {}
+    calls, origin = {}, {}
+    USES["list"] = False
     for spec in unit["functions"]:
         with open(repo + "/" + spec["file"]) as f:
             with warnings.catch_warnings():          # invalid escapes in rig's docstrings
                 warnings.simplefilter("ignore")
                 tree = ast.parse(f.read())
         node = find_function(tree, spec["name"])
-        text = Fn(node, spec, calls).translate()
+        text = Fn(node, spec, calls, module=tree, origin=origin).translate()
         out.append("(* %s : %s, line %d *)" % (spec["file"], spec["name"], node.lineno))
         out.append(text)
         calls[spec["name"].split(".")[-1]] = (spec["coq"], list(spec["params"].values()),
                                               spec["ret"])
+        origin[spec["name"].split(".")[-1]] = (spec["file"], spec["name"])
     if USES["list"]:
         out[1] = "From Coq Require Import ZArith Bool List."
     return "\n".join(out)
